@@ -458,19 +458,45 @@ func ruleStoreAtomicity(c *Ctx) {
 			continue
 		}
 		nsig += len(multi)
-		// one obligation per handler: "this handler is not atomic". Its multi-step paths are part
-		// of the message, not of the key: adding an index or a counter to a container changes the
-		// paths of a handler that is already known not to be atomic, not the finding
-		key := fmt.Sprintf("ex.%s", fn.Name())
-		sigList := strings.Join(sortedKeys(multi), "")
+		// one obligation per handler and multi-step path: "this sequence of steps of this handler
+		// is not atomic". A path is keyed by its steps with record contents named by container
+		// type only (an index or a counter added beside a container's data is the same step), so
+		// that a known finding stays the same finding under such additions, while a path with
+		// other steps — a Delete opened before the Store of a plain SET — is a different
+		// violation of the same handler and is reported as such.
 		_ = hasLock
-		c.bad(rid, key, c.P.pos(fn.Pos()), "multi-step path(s) "+sigList+" on shared store state that no single lock acquisition covers from the first step to the last: concurrent clients can interleave between the steps (check-then-act, lost update, or a data race on record contents)")
+		keyed := map[string][]string{}
+		for sig := range multi {
+			k := keySignature(sig)
+			keyed[k] = append(keyed[k], sig)
+		}
+		for _, k := range sortedKeys(keyed) {
+			sort.Strings(keyed[k])
+			c.bad(rid, fmt.Sprintf("ex.%s %s", fn.Name(), k), c.P.pos(fn.Pos()), "multi-step path(s) "+strings.Join(keyed[k], "")+" on shared store state that no single lock acquisition covers from the first step to the last: concurrent clients can interleave between the steps (check-then-act, lost update, or a data race on record contents)")
+		}
 		// database creation: check-then-create
 	}
 	c.count("example-handlers", nh)
 	c.floor("example-handlers", 24)
 	c.count("multi-step-handler-paths", nsig)
 	c.count("multi-step-paths-under-one-lock", nLocked)
+}
+
+// keySignature: "[R.Load mutate(Set.members) mutate(Set.index)]" -> "[R.Load mutate(Set)]".
+func keySignature(sig string) string {
+	var out []string
+	for _, st := range strings.Fields(strings.Trim(sig, "[]")) {
+		if strings.HasPrefix(st, "mutate(") {
+			if i := strings.Index(st, "."); i > 0 {
+				st = st[:i] + ")"
+			}
+		}
+		if len(out) > 0 && out[len(out)-1] == st {
+			continue
+		}
+		out = append(out, st)
+	}
+	return "[" + strings.Join(collapse(out), " ") + "]"
 }
 
 // storeState: the mutated field belongs to the record store (records and their containers).
